@@ -9,6 +9,7 @@ import GsModel.Pair.Encode
 import GsModel.Doc.Lines
 import GsModel.Scan.GoTypes
 import GsModel.Scan.Indent
+import GsModel.Names.Timeout
 import GsModel.Schema.Valid
 /-
   Model driver: one JSON request per line on stdin, one JSON response per line on stdout.
@@ -252,6 +253,13 @@ def handleRemoveIndent (j : Json) : Json :=
   | .panic w => Json.mkObj [("r", Json.str "ok"), ("panic", Json.str w)]
   | .fuel => Json.mkObj [("r", Json.str "fuel")]
 
+/-- {"op":"names.renameTimeout","seen":[s..],"name":s} → {"name":s} | {"fuel":true} -/
+def handleRenameTimeout (j : Json) : Json :=
+  let seen := (Diff.J.strs j "seen").map String.toList
+  match Names.renameTimeout seen (Names.maxLen seen + 8) (Diff.J.str j "name").toList with
+  | some r => Json.mkObj [("r", Json.str "ok"), ("name", Json.str (String.ofList r))]
+  | none => Json.mkObj [("r", Json.str "ok"), ("fuel", Json.bool true)]
+
 partial def toJ (j : Json) : Schema.J :=
   match j with
   | .null => .null
@@ -305,6 +313,7 @@ def handle (line : String) : Json :=
     | "ops.gather" => handleGather j
     | "sec.serve" => handleSec j
     | "param.bind" => handleBind j
+    | "names.renameTimeout" => handleRenameTimeout j
     | "scan.removeIndent" => handleRemoveIndent j
     | "scan.schema" => handleScanSchema j
     | "doc.roundtrip" => handleDoc j
